@@ -25,7 +25,7 @@ GROUPS = {
 N_FAMILIES = {"dn": 1, "un": 1, "dl": 6, "ul": 6, "dm": 2, "um": 2, "dw": 2, "uw": 2}
 
 COMMON = ["resize", "clearEdges", "removeDuplicateEdges", "removeSelfLoops", "removeVertexFromEdgeList",
-          "removeEdge", "addEdge"]
+          "removeEdge", "addEdge", "relocate"]
 OBSERVER_OPS = ["hasEdge", "getEdgeLabel", "getEdgeLabelNoThrow", "getOutNeighbours", "assertVertexInRange",
                 "getOutDegree", "getInDegree", "getDegree", "getEdgeMultiplicity", "getEdgeWeight"]
 
